@@ -70,6 +70,11 @@ func canon(e ast.Expr, defs map[string]string) string {
 			walk(x.X)
 			b.WriteString(" " + x.Op.String() + " ")
 			walk(x.Y)
+		case *ast.IndexExpr:
+			walk(x.X)
+			b.WriteString("[")
+			walk(x.Index)
+			b.WriteString("]")
 		case *ast.TypeAssertExpr:
 			walk(x.X)
 			b.WriteString(".(" + show(x.Type) + ")")
@@ -154,6 +159,13 @@ func flatten(body *ast.BlockStmt, defs map[string]string, effectCalls []string) 
 			if s.Init != nil {
 				if a, ok := s.Init.(*ast.AssignStmt); ok && len(a.Rhs) == 1 && len(a.Lhs) == 1 {
 					defs[a.Lhs[0].(*ast.Ident).Name] = canon(a.Rhs[0], defs)
+				} else if ok && len(a.Rhs) == 1 && a.Tok == token.DEFINE {
+					rhs := canon(a.Rhs[0], defs)
+					for i, l := range a.Lhs {
+						if id, ok := l.(*ast.Ident); ok && id.Name != "_" {
+							defs[id.Name] = fmt.Sprintf("%s#%d", rhs, i)
+						}
+					}
 				} else {
 					pre = "init " + show(s.Init) + "; "
 				}
@@ -172,6 +184,20 @@ func flatten(body *ast.BlockStmt, defs map[string]string, effectCalls []string) 
 			out = append(out, "return "+strings.Join(r, ", "))
 		case *ast.ExprStmt:
 			out = append(out, "do "+canon(s.X, defs))
+		case *ast.GoStmt:
+			var calls []string
+			ast.Inspect(s.Call, func(n ast.Node) bool {
+				if c, ok := n.(*ast.CallExpr); ok {
+					if sel, ok := c.Fun.(*ast.SelectorExpr); ok && !strings.Contains(show(sel.X), "logger") &&
+						!strings.Contains(show(sel), ".Hash.") {
+						calls = append(calls, sel.Sel.Name)
+					}
+				}
+				return true
+			})
+			out = append(out, "go{"+strings.Join(calls, ",")+"}")
+		case *ast.SendStmt:
+			out = append(out, "send "+canon(s.Chan, defs))
 		default:
 			out = append(out, "stmt "+show(st))
 		}
@@ -236,6 +262,38 @@ var verifySignTable = map[string]string{
 	"return groupsig.VerifySig(pk, si.dataHash.Bytes(), si.signature)": "verifyOverDataHash",
 }
 
+var start2Table = map[string]string{
+	"if r.finished {return NewError(..)}":                                    "finishedGuard",
+	"set r.finished = true":                                                  "setFinished",
+	"if r.checkBlockExisted() != nil {return r.checkBlockExisted()}":         "checkBlockExisted",
+	"if r.checkSignature(r.group) != nil {return r.checkSignature(r.group)}": "checkSignature",
+	"do r.blockchain.GenerateBlock(*r.bh)":                                   "generateBlock",
+	"if r.blockchain.GenerateBlock(*r.bh) == nil {return NewError(..)}":      "generateGuard",
+	"go{AddBlockOnChain,broadcastNewBlock}":                                  "addOnChainAsync",
+	"send r.done":                                                            "signalDone",
+	retNo:                                                                    "returnNil",
+}
+
+var addWitnessSignTable = map[string]string{
+	"if gs.SignRecovered() {return false, true}": "recoveredGuard",
+	"return gs.addWitnessForce(id, signature)":   "force",
+}
+
+var addWitnessForceTable = map[string]string{
+	"if gs.witnessSignMap[id.GetHexString()]#1 {return false, false}":            "dupGuard",
+	"set gs.witnessSignMap[id.GetHexString()] = signature":                       "store",
+	"if len(gs.witnessSignMap) >= gs.threshold {return true, gs.genGroupSign()}": "atThreshold",
+	"return true, false": "belowThreshold",
+}
+
+var genGroupSignTable = map[string]string{
+	"if gs.groupSign.IsValid() {return true}":                                                  "alreadyValid",
+	"if groupsig.RecoverGroupSignature(gs.witnessSignMap, gs.threshold) == nil {return false}": "nilGuard",
+	"set gs.groupSign = *groupsig.RecoverGroupSignature(gs.witnessSignMap, gs.threshold)":      "storeRecovered",
+	"if len(gs.groupSign.Serialize()) == 0 {}":                                                 "emptyNote",
+	"return true": "returnTrue",
+}
+
 func steps(fd *ast.FuncDecl, table map[string]string, effects []string, dump bool) []string {
 	canonStmts := flatten(fd.Body, map[string]string{}, effects)
 	var out []string
@@ -273,6 +331,10 @@ func main() {
 	// `bh := r.bh` makes bh canonical as r.bh in both functions
 	cs := steps(findFunc(filepath.Join(dir, "round_sign_finalizer.go"), "round2", "checkSignature"), checkSigTable, nil, dump)
 	vs := steps(findFunc(filepath.Join(dir, "..", "model", "message.go"), "SignInfo", "VerifySign"), verifySignTable, nil, dump)
+	r2 := steps(findFunc(filepath.Join(dir, "round_sign_finalizer.go"), "round2", "Start"), start2Table, []string{"GenerateBlock"}, dump)
+	aw := steps(findFunc(piece, "groupSignGenerator", "AddWitnessSign"), addWitnessSignTable, nil, dump)
+	af := steps(findFunc(piece, "groupSignGenerator", "addWitnessForce"), addWitnessForceTable, nil, dump)
+	gg := steps(findFunc(piece, "groupSignGenerator", "genGroupSign"), genGroupSignTable, nil, dump)
 	binds := false
 	for _, s := range up {
 		if s == "bindHash" {
@@ -292,6 +354,12 @@ func main() {
 	fmt.Printf("def updateSteps : List UStep := %s\n\n", leanList(up))
 	fmt.Println("/-- `round2.checkSignature` -/")
 	fmt.Printf("def checkSignatureSteps : List CStep := %s\n\n", leanList(cs))
+	fmt.Println("/-- `round2.Start` -/")
+	fmt.Printf("def start2Steps : List R2Step := %s\n\n", leanList(r2))
+	fmt.Println("/-- `groupSignGenerator.AddWitnessSign`, `addWitnessForce`, `genGroupSign` -/")
+	fmt.Printf("def addWitnessSignSteps : List GStep := %s\n\n", leanList(aw))
+	fmt.Printf("def addWitnessForceSteps : List GStep := %s\n\n", leanList(af))
+	fmt.Printf("def genGroupSignSteps : List GStep := %s\n\n", leanList(gg))
 	fmt.Println("/-- `SignInfo.VerifySign` -/")
 	fmt.Printf("def verifySignSteps : List VStep := %s\n\n", leanList(vs))
 	fmt.Println("/-- `round1.Update` compares `si.GetDataHash()` with `bh.Hash` before the share is counted. -/")
